@@ -216,4 +216,51 @@ def clientHeaders (fields : List Field) : HdrRes :=
 /-- `serverStream.SetHeader` / `SendHeader`: validated, INTERNAL on failure (nothing stored). -/
 def ssHeaderAccepts (md : MD) : Bool := validate md
 
+/-- `out[k] = append(out[k], …)` with nothing to append: the key exists afterwards. -/
+def ensureKey (md : MD) (k : Bytes) : MD := if md.any (fun kv => kv.1 = k) then md else md ++ [(k, [])]
+
+/-- `metadata.Join(a, b)`: a NEW map holding, per key, a's values followed by b's. The arguments
+    are only read: the metadata values a handler passes to SetHeader / SendHeader / SetTrailer
+    belong to the handler and are never retained or modified (`ServerStream.SetHeader`,
+    `SetTrailer`: `s.header = metadata.Join(s.header, md)`; `writeHeader` joins too, or adopts
+    `md` when nothing was set before — after which the stream never writes to it again). -/
+def mdJoin (a b : MD) : MD :=
+  b.foldl (fun acc kv => kv.2.foldl (fun m v => mdAppend m kv.1 v) (ensureKey acc kv.1)) a
+
+/-- Header side of a server stream: accumulated header metadata, and whether the HEADERS frame has
+    gone out (`updateHeaderSent`). -/
+structure HdrState where
+  header : MD := []
+  sent : Bool := false
+
+inductive HdrApi | ssSet | ssSend | ctxSet | ctxSend
+deriving DecidableEq, Repr
+
+/-- One header call of the handler: new state and the call's result (`none` = nil error, `some c` =
+    a status error of code c). Order of the checks as in stream.go / server.go / server_stream.go /
+    http2_server.go: empty MD is a no-op for the Set calls; the ServerStream methods validate first
+    (INTERNAL); after the HEADERS frame went out every call fails with ErrIllegalHeaderWrite
+    (INTERNAL); otherwise the metadata is joined into the stream's header, and Send writes the frame. -/
+def hdrCall (st : HdrState) (api : HdrApi) (md : MD) : HdrState × Option Nat :=
+  match api with
+  | .ssSet =>
+    if md.isEmpty then (st, none)
+    else if !validate md then (st, some 13)
+    else if st.sent then (st, some 13)
+    else ({ st with header := mdJoin st.header md }, none)
+  | .ctxSet =>
+    if md.isEmpty then (st, none)
+    else if st.sent then (st, some 13)
+    else ({ st with header := mdJoin st.header md }, none)
+  | .ssSend =>
+    if !validate md then (st, some 13)
+    else if st.sent then (st, some 13)
+    else ({ header := mdJoin st.header md, sent := true }, none)
+  | .ctxSend =>
+    if st.sent then (st, some 13)
+    else ({ header := mdJoin st.header md, sent := true }, none)
+
+/-- `SetTrailer` (either API; the ServerStream one only logs a validation failure). -/
+def trlCall (trailer : MD) (md : MD) : MD := if md.isEmpty then trailer else mdJoin trailer md
+
 end GrpcModel.MdWire
